@@ -14,9 +14,10 @@ PIN2 = "INVARIANTS TypeOK Fixpoint\nPROPERTIES LivelockOnlyWhenPatched\n"
 
 
 def cfg(name, cls, items, fills, absw, orgs, labels='{"la", "lb"}', fixed="TRUE", tail=SAFE, throw="FALSE",
-        extra="TRUE", ill="FALSE", offs="{1}", head="", spec=None, complete="FALSE", tmax=3, selfk="{}", pages="{}", preset="TRUE"):
+        extra="TRUE", ill="FALSE", offs="{1}", head="", spec=None, complete="FALSE", tmax=3, selfk="{}", pages="{}", preset="TRUE",
+        sects="{}", quals="{8}", alias="{}", csens="FALSE", kinds='{"abs", "var", "rel"}'):
     c = dict(CLS[cls])
-    c.update(Pages=pages, PageReset=preset, SelfKinds=selfk, Labels=labels, MaxItems=items, Fills=fills, AbsWidths=absw, EquOffs=offs, Orgs=orgs, Fixed=fixed,
+    c.update(RefKinds=kinds, Sects=sects, Quals=quals, Alias=alias, CaseSens=csens, Pages=pages, PageReset=preset, SelfKinds=selfk, Labels=labels, MaxItems=items, Fills=fills, AbsWidths=absw, EquOffs=offs, Orgs=orgs, Fixed=fixed,
              ThrowErrors=throw, ThrowMaxPass=tmax, WithExtra=extra, AllowIllFormed=ill, Complete=complete)
     with open(os.path.join(SPEC, name), "w") as f:
         f.write("\\* %s\n" % head if head else "")
@@ -67,6 +68,31 @@ cfg("PassLoop_Gen_pageabs.cfg", "abs", 4, "{1}", "{2}", "{254}", offs="{}", page
 cfg("PassLoop_MC_page_leak.cfg", "abs", 4, "{1}", "{2}", "{254}", offs="{}", pages="{1}", preset="FALSE",
     tail="INVARIANTS TypeOK Fixpoint\n",
     head="a generator that resets the assumed page only at start-up: TLC must report Fixpoint violated")
+# name scopes: SECTION / ENDSECTION / FORWARD around definitions and references of ONE name in two spellings
+# ("la", "LA": the same symbol without -U), so that a section-local definition can stand behind its use while an
+# outer scope has a symbol of the same name; origin 253: the outer symbol lies below, the local one above $100
+ALIAS = '{{"la", "LA"}}'
+cfg("PassLoop_Gen_sectabs.cfg", "abs", 5, "{}", "{2}", "{253}", labels='{"la", "LA"}', offs="{}", sects='{"s"}', alias=ALIAS, kinds='{"var"}',
+    tail=GTAIL, spec=GEN,
+    head="(M)+(G) 6809/68HC11/6502 class with SECTION/ENDSECTION/FORWARD, one name in two spellings, every program <= 5 items")
+# nested sections and names with a section in brackets (la[], la[PARENT0], la[PARENT], la[s]); one spelling
+cfg("PassLoop_Gen_nestabs.cfg", "abs", 5, "{}", "{2}", "{253}", labels='{"la"}', offs="{}", sects='{"s", "t"}', kinds='{"abs"}',
+    quals="{8, 9, 0, 1}", tail=GTAIL, spec=GEN,
+    head="(M)+(G) nested SECTIONs, data words with name[section] operands, every program <= 5 items")
+# thorough tier: one item more, all reference kinds / the other two target classes / option -U
+cfg("PassLoop_Gen_sectabs6.cfg", "abs", 6, "{}", "{2}", "{253}", labels='{"la", "LA"}', offs="{}", sects='{"s"}', alias=ALIAS, kinds='{"var", "abs"}',
+    tail=GTAIL, spec=GEN, head="(M)+(G) thorough: sections + FORWARD, abs class, every program <= 6 items")
+cfg("PassLoop_Gen_nestabs6.cfg", "abs", 6, "{}", "{2}", "{253}", labels='{"la"}', offs="{}", sects='{"s", "t"}', kinds='{"abs"}',
+    quals="{8, 9, 0, 1, 2}", tail=GTAIL, spec=GEN, head="(M)+(G) thorough: nested sections, every program <= 6 items")
+cfg("PassLoop_Gen_sect68k.cfg", "68k", 5, "{1}", "{2}", "{0}", labels='{"la", "LA"}', offs="{}", sects='{"s"}', alias=ALIAS, kinds='{"var", "rel"}',
+    tail=GTAIL, spec=GEN, head="(M)+(G) thorough: sections + FORWARD, 68000 class (padding moves the local label)")
+cfg("PassLoop_Gen_sect86.cfg", "86", 5, "{126}", "{2}", "{0}", labels='{"la", "LA"}', offs="{}", sects='{"s"}', alias=ALIAS, kinds='{"var"}',
+    tail=GTAIL, spec=GEN, head="(M)+(G) thorough: sections + FORWARD, 8086 class")
+cfg("PassLoop_Gen_sectabsU.cfg", "abs", 5, "{}", "{2}", "{253}", labels='{"la", "LA"}', offs="{}", sects='{"s"}', alias=ALIAS, kinds='{"var"}', csens="TRUE",
+    tail=GTAIL, spec=GEN, head="(M)+(G) thorough: option -U, la and LA are different names")
+cfg("PassLoop_MC_sect_accident.cfg", "abs", 4, "{}", "{2}", "{253}", labels='{"la"}', offs="{}", sects='{"s"}', extra="FALSE",
+    tail="INVARIANTS TypeOK FixpointAlsoWhenIndefinite\n",
+    head="the accident the manual describes under FORWARD: TLC must refute Fixpoint without the ScopeSafe premise")
 for c, fills, absw, orgs in (("68k", "{1, 2, 3, 4, 118}", "{2, 4}", "{0, 1}"), ("abs", "{1, 2, 3, 4, 120}", "{2}", "{0, 250}"),
                              ("86", "{1, 2, 3, 4, 119}", "{2}", "{0}")):
     cfg("PassLoop_Sim_%s.cfg" % c, c, 12, fills, absw, orgs, labels='{"la", "lb", "lc"}', offs="{2}", complete="TRUE", selfk='{"labs", "lvar", "lrel"}',
@@ -74,7 +100,15 @@ for c, fills, absw, orgs in (("68k", "{1, 2, 3, 4, 118}", "{2, 4}", "{0, 1}"), (
         head="simulation: %s class, programs <= 12 items (+ closing definitions), 3 labels" % c)
 for c in CLS:
     d = dict(CLS[c]); d.pop("RelFpuOK")
-    d.update(Labels='{"la", "lb", "lc"}', Fills="{}", AbsWidths="{2, 4}", EquOffs="{}", SelfKinds="{}", Pages="{}")
+    # the labels / sections of the scope alphabets (PassLoop_Gen_sect*.cfg) are known here too: their layouts are
+    # judged in the same TLC run as the other programs of the class
+    d.update(Labels='{"la", "lb", "lc", "LA", "La"}', Fills="{}", AbsWidths="{2, 4}", EquOffs="{}", SelfKinds="{}", Pages="{}",
+             RefKinds="{}", Sects='{"s", "t"}', Quals="{8}", Alias='{{"la", "LA", "La"}}', CaseSens="FALSE")
     with open(os.path.join(SPEC, "PassLoop_Obs_%s.cfg" % c), "w") as f:
         f.write("\\* verdict on decoded layouts, %s class\nCONSTANTS\n" % c + "".join("  %s = %s\n" % kv for kv in d.items()))
         f.write("INIT OInit\nNEXT ONext\nPOSTCONDITION Accepted\nCHECK_DEADLOCK FALSE\n")
+    if c == "abs":      # option -U
+        d.update(CaseSens="TRUE")
+        with open(os.path.join(SPEC, "PassLoop_Obs_sectabsU.cfg"), "w") as f:
+            f.write("\\* verdict on decoded layouts, abs class, option -U\nCONSTANTS\n" + "".join("  %s = %s\n" % kv for kv in d.items()))
+            f.write("INIT OInit\nNEXT ONext\nPOSTCONDITION Accepted\nCHECK_DEADLOCK FALSE\n")
